@@ -71,7 +71,7 @@ class CloneCopiesEveryMutableValue(Contract):
         s = Obj(g.Line, "line")
         dt_table = Obj(None, "datatype_table")
         dt_copy = Obj(None, "copy_of_datatype_table")
-        heap = {s.oid: {"_data": DataItems(items), "_datatype": dt_table, "vlevel": z3.Int("vlevel"), "virtual": z3.Bool("virtual"), "version": "gfa2"},
+        heap = {s.oid: {"_data": DataItems(items), "_datatype": dt_table, "vlevel": z3.Int("vlevel"), "virtual": z3.Bool("virtual"), "version": "gfa2", "_dialect": "rgfa"},
                 dt_table.oid: {}, dt_copy.oid: {}}
         cpy = Obj(g.Line, "clone")
         def fresh_obj(st):
@@ -89,7 +89,8 @@ class CloneCopiesEveryMutableValue(Contract):
             yield ("val", ite_str(isj[S(k_)], "J", "x"), [])
         def m_ctor(E, st, pos, kw):
             ok = bool(pos) and isinstance(pos[0], CopyDict)
-            yield ("val", cpy, [], st.with_ghost("ctor_got_copy", ok).with_ghost("ctor_kw", sorted(kw)))
+            same = (kw.get("version") == "gfa2" and kw.get("dialect") == "rgfa")          # the clone is a line of the same version and dialect
+            yield ("val", cpy, [], st.with_ghost("ctor_got_copy", ok).with_ghost("ctor_kw", sorted(kw)).with_ghost("ctor_same_kind", same))
         def m_dtcopy(E, st, pos, kw):
             yield ("val", dt_copy, [])
         class RefFields:
@@ -137,7 +138,7 @@ class CloneCopiesEveryMutableValue(Contract):
                 return z3.BoolVal(False)
             zh = st.zh
             own_dt = st.attrs(cpy).get("_datatype")
-            return z3.And(z3.BoolVal(isinstance(v, Obj) and v.oid == cpy.oid), z3.BoolVal(bool(st.ghost.get("ctor_got_copy"))),
+            return z3.And(z3.BoolVal(isinstance(v, Obj) and v.oid == cpy.oid), z3.BoolVal(bool(st.ghost.get("ctor_got_copy"))), z3.BoolVal(bool(st.ghost.get("ctor_same_kind"))),
                           z3.BoolVal(isinstance(own_dt, Obj) and own_dt.oid == dt_copy.oid),
                           z3.BoolVal("_gfa" not in st.attrs(cpy) and "_refs" not in st.attrs(cpy)),
                           z3.ForAll([j], z3.Implies(z3.And(0 <= j, j < n), entry_ok(zh, j))))
